@@ -28,6 +28,8 @@ type Prog struct {
 	byName   map[string]*ssa.Function // short qualified name -> function (module functions only)
 	ModFuncs []*ssa.Function          // all functions (incl. anonymous) defined in the module, sorted by name
 	decls    map[*ssa.Function]*ast.FuncDecl
+	Inline   *InlineNote     // what the source normaliser did (nil: nothing to do)
+	Overlaid map[string]bool // files analysed in normalised form (positions refer to that form)
 }
 
 func repoRoot() string {
@@ -43,11 +45,32 @@ func Load(root string) (*Prog, error) {
 	if extra := os.Getenv("CTVERIF_LOADENV"); extra != "" {
 		env = append(env, strings.Fields(extra)...)
 	}
+	overlay, note := buildInlineOverlay(root, env)
+	p, err := loadWith(root, env, overlay)
+	if err != nil && overlay != nil {
+		// the normalised source must type-check; otherwise analyse the tree as it is
+		note.Skipped = append(note.Skipped, "normalised source rejected ("+firstLines(err.Error(), 3)+"): helpers left alone")
+		note.Inlined, note.Removed = nil, nil
+		overlay = nil
+		p, err = loadWith(root, env, nil)
+	}
+	if p != nil {
+		p.Inline = note
+		p.Overlaid = map[string]bool{}
+		for f := range overlay {
+			p.Overlaid[f] = true
+		}
+	}
+	return p, err
+}
+
+func loadWith(root string, env []string, overlay map[string][]byte) (*Prog, error) {
 	cfg := &packages.Config{
-		Mode:  packages.LoadAllSyntax,
-		Dir:   root,
-		Env:   env,
-		Tests: false,
+		Mode:    packages.LoadAllSyntax,
+		Dir:     root,
+		Env:     env,
+		Tests:   false,
+		Overlay: overlay,
 	}
 	pkgs, err := packages.Load(cfg, "./...")
 	if err != nil {
@@ -188,6 +211,10 @@ func (p *Prog) Pos(pos token.Pos) string {
 	}
 	ps := p.Fset.Position(pos)
 	f := strings.TrimPrefix(ps.Filename, p.Root+"/")
+	if p.Overlaid[ps.Filename] {
+		// line of the normalised source (helpers expanded): see `ctverif inline`
+		return fmt.Sprintf("%s:%d(normalised)", f, ps.Line)
+	}
 	return fmt.Sprintf("%s:%d", f, ps.Line)
 }
 
